@@ -5,8 +5,8 @@
 package octosql
 
 // Value invariant (what the constructors and the datasources establish): a concrete TypeID, Boolean only set on
-// Boolean values, and — recursively — valid elements. validV is a recursive predicate over finite value trees.
-//@ spec rec validV(v Value) bool = 0 <= v.TypeID && v.TypeID <= 9 && (v.TypeID != 3 ==> !v.Boolean) && forall(j, 0, len(v.List), validV(v.List[j])) && forall(j, 0, len(v.Struct), validV(v.Struct[j])) && forall(j, 0, len(v.Tuple), validV(v.Tuple[j]))
+// Boolean values, only the container selected by the TypeID populated, and — recursively — valid elements. validV is a recursive predicate over finite value trees.
+//@ spec rec validV(v Value) bool = 0 <= v.TypeID && v.TypeID <= 9 && (v.TypeID != 3 ==> !v.Boolean) && (v.TypeID != 7 ==> len(v.List) == 0) && (v.TypeID != 8 ==> len(v.Struct) == 0) && (v.TypeID != 9 ==> len(v.Tuple) == 0) && forall(j, 0, len(v.List), validV(v.List[j])) && forall(j, 0, len(v.Struct), validV(v.Struct[j])) && forall(j, 0, len(v.Tuple), validV(v.Tuple[j]))
 
 // cmp is "the function Value.Compare computes" (Compare is pure and deterministic); hsh likewise for Value.hash.
 //@ spec cmp(a Value, b Value) int
@@ -72,16 +72,26 @@ package octosql
 
 //@ lemma cmpTrans(a Value, b Value, c Value)
 //@   requires validV(a) && validV(b) && validV(c)
-//@   case Null: a.TypeID == 0
-//@   case Int: a.TypeID == 1
-//@   case Float: a.TypeID == 2
-//@   case Boolean: a.TypeID == 3
-//@   case String: a.TypeID == 4
-//@   case Time: a.TypeID == 5
-//@   case Duration: a.TypeID == 6
-//@   case List: a.TypeID == 7
-//@   case Struct: a.TypeID == 8
-//@   case Tuple: a.TypeID == 9
+//@   case Null: a.TypeID == 0 && b.TypeID == 0 && c.TypeID == 0
+//@   case NullMixed: a.TypeID == 0 && !(b.TypeID == 0 && c.TypeID == 0)
+//@   case Int: a.TypeID == 1 && b.TypeID == 1 && c.TypeID == 1
+//@   case IntMixed: a.TypeID == 1 && !(b.TypeID == 1 && c.TypeID == 1)
+//@   case Float: a.TypeID == 2 && b.TypeID == 2 && c.TypeID == 2
+//@   case FloatMixed: a.TypeID == 2 && !(b.TypeID == 2 && c.TypeID == 2)
+//@   case Boolean: a.TypeID == 3 && b.TypeID == 3 && c.TypeID == 3
+//@   case BooleanMixed: a.TypeID == 3 && !(b.TypeID == 3 && c.TypeID == 3)
+//@   case String: a.TypeID == 4 && b.TypeID == 4 && c.TypeID == 4
+//@   case StringMixed: a.TypeID == 4 && !(b.TypeID == 4 && c.TypeID == 4)
+//@   case Time: a.TypeID == 5 && b.TypeID == 5 && c.TypeID == 5
+//@   case TimeMixed: a.TypeID == 5 && !(b.TypeID == 5 && c.TypeID == 5)
+//@   case Duration: a.TypeID == 6 && b.TypeID == 6 && c.TypeID == 6
+//@   case DurationMixed: a.TypeID == 6 && !(b.TypeID == 6 && c.TypeID == 6)
+//@   case List: a.TypeID == 7 && b.TypeID == 7 && c.TypeID == 7
+//@   case ListMixed: a.TypeID == 7 && !(b.TypeID == 7 && c.TypeID == 7)
+//@   case Struct: a.TypeID == 8 && b.TypeID == 8 && c.TypeID == 8
+//@   case StructMixed: a.TypeID == 8 && !(b.TypeID == 8 && c.TypeID == 8)
+//@   case Tuple: a.TypeID == 9 && b.TypeID == 9 && c.TypeID == 9
+//@   case TupleMixed: a.TypeID == 9 && !(b.TypeID == 9 && c.TypeID == 9)
 //@   ensures transitive: a.Compare(b) <= 0 && b.Compare(c) <= 0 ==> a.Compare(c) <= 0 && (a.Compare(c) == 0 ==> a.Compare(b) == 0 && b.Compare(c) == 0)
 //@   use List: cmpTrans(a.List[exit(a.Compare(b), "i", 1)], b.List[exit(a.Compare(b), "i", 1)], c.List[exit(a.Compare(b), "i", 1)])
 //@   use List: cmpTrans(a.List[exit(b.Compare(c), "i", 1)], b.List[exit(b.Compare(c), "i", 1)], c.List[exit(b.Compare(c), "i", 1)])
@@ -92,3 +102,40 @@ package octosql
 //@   use Tuple: cmpTrans(a.Tuple[exit(a.Compare(b), "i", 3)], b.Tuple[exit(a.Compare(b), "i", 3)], c.Tuple[exit(a.Compare(b), "i", 3)])
 //@   use Tuple: cmpTrans(a.Tuple[exit(b.Compare(c), "i", 3)], b.Tuple[exit(b.Compare(c), "i", 3)], c.Tuple[exit(b.Compare(c), "i", 3)])
 //@   use Tuple: cmpTrans(a.Tuple[exit(a.Compare(c), "i", 3)], b.Tuple[exit(a.Compare(c), "i", 3)], c.Tuple[exit(a.Compare(c), "i", 3)])
+
+// C09: hashing. hash folds the element hashes left to right over the list (struct and tuple values hash no
+// elements: their loops range over value.List, which is empty for them — weak but consistent).
+//@ spec rec hfold(h uint64, s []Value, n int) uint64 = ite(n <= 0, h, hsh(s[n-1], hfold(h, s, n-1)))
+//@ func Value.hash
+//@   requires validV(value)
+//@   pure
+//@   defines result == hsh(value, hash)
+//@   loop 1 invariant fold: 0 <= $k && $k <= len(value.List) && hash == hfold(old(hash), value.List, $k)
+//@   loop 2 invariant none: $k == 0 && hash == old(hash)
+//@   loop 3 invariant none: $k == 0 && hash == old(hash)
+
+// Equal prefixes (elementwise Compare == 0) fold to equal hashes — induction on the prefix length, mutually with
+// hashConsistent on the (smaller) elements.
+//@ lemma foldEq(h uint64, s []Value, t []Value, n int)
+//@   requires 0 <= n && n <= len(s) && n <= len(t)
+//@   requires forall(j, 0, n, validV(s[j]) && validV(t[j]) && cmp(s[j], t[j]) == 0)
+//@   ensures folds: hfold(h, s, n) == hfold(h, t, n)
+//@   use foldEq(h, s, t, n-1)
+//@   use hashConsistent(s[n-1], t[n-1], hfold(h, s, n-1))
+
+// Values that Compare equal hash equally, for every seed.
+//@ lemma hashConsistent(a Value, b Value, h uint64)
+//@   requires validV(a) && validV(b)
+//@   requires a.Compare(b) == 0
+//@   case Null: a.TypeID == 0
+//@   case Int: a.TypeID == 1
+//@   case Float: a.TypeID == 2
+//@   case Boolean: a.TypeID == 3
+//@   case String: a.TypeID == 4
+//@   case Time: a.TypeID == 5
+//@   case Duration: a.TypeID == 6
+//@   case List: a.TypeID == 7
+//@   case Struct: a.TypeID == 8
+//@   case Tuple: a.TypeID == 9
+//@   ensures consistent: a.hash(h) == b.hash(h)
+//@   use List: foldEq(h, a.List, b.List, len(a.List))
